@@ -26,6 +26,9 @@ def _is_encode(t):
   return isinstance(t, tuple) and t[0] == 'call' and t[1].split('.')[-1] == 'encode' and 'TaggedSeries' in t[1]
 
 
+CONSTS = None      # module-level string constants of carbon.database (set by run())
+
+
 def _path_ok(t, pname, whisper):
   """is term t an acceptable filesystem argument derived from the metric?  returns (ok, why)"""
   if not _mentions_metric(t, pname):
@@ -47,9 +50,20 @@ def _path_ok(t, pname, whisper):
       if len(t) != 4:
         return False, 'join() has extra components'
       rest = t[3]
-      if rest[0] == 'binop' and rest[1] == 'Add' and rest[3][0] == 'const' and isinstance(rest[3][1], str) and \
-         '/' not in rest[3][1] and '..' not in rest[3][1]:
+
+      def harmless(x):
+        """a constant extension: literal text (or a module-level constant name) without path syntax"""
+        if x[0] == 'const':
+          return isinstance(x[1], str) and '/' not in x[1] and '..' not in x[1]
+        if x[0] == 'param' and CONSTS is not None:
+          v = CONSTS.get(x[1])
+          return isinstance(v, str) and '/' not in v and '..' not in v
+        return False
+      if rest[0] == 'binop' and rest[1] == 'Add' and harmless(rest[3]):
         rest = rest[2]
+      elif rest[0] == 'fmt' and len(rest) >= 3 and rest[1].startswith('%s') and '/' not in rest[1] and '..' not in rest[1] and \
+          all(harmless(x) for x in rest[3:]) and rest[1].count('%') == len(rest) - 2:
+        rest = rest[2]            # '%s<ext>' % (encoded, ...) / '{0}{1}'.format(encoded, EXT)
       if _is_encode(rest) and rest[2] == ('param', pname):
         return True, show(t)
       return False, 'the component joined to the data directory is `%s`, not TaggedSeries.encode(metric, ...) (+ a constant ' \
@@ -64,6 +78,14 @@ def _path_ok(t, pname, whisper):
   if _is_encode(core) and core[2] == ('param', pname):
     return True, show(t)
   return False, '`%s` is not TaggedSeries.encode(metric, ...)' % show(t)
+
+
+def _is_module_constant(module, name):
+  """bound once at module level to a literal and never declared global in a function: not state."""
+  vals = module.globals.get(name, [])
+  if len(vals) != 1 or not isinstance(vals[0], ast.Constant):
+    return False
+  return not any(isinstance(x, ast.Global) and name in x.names for x in ast.walk(module.tree))
 
 
 def run(check):
@@ -84,6 +106,10 @@ def run(check):
   dbmod = repo.module('carbon.database')
   base = dbmod.cls('TimeSeriesDatabase')
   backends = repo.subclasses(base)
+  global CONSTS
+  rebound = {n_ for x in ast.walk(dbmod.tree) if isinstance(x, ast.Global) for n_ in x.names}
+  CONSTS = {k: v[0].value for k, v in dbmod.globals.items()
+            if len(v) == 1 and isinstance(v[0], ast.Constant) and isinstance(v[0].value, str) and k not in rebound}
 
   r_s = check.rule('R-C14-sanitised', 6, 'every filesystem sink gets the metric only through encode() + join(data_dir, ...)')
   r_s.require(backends, 'no TimeSeriesDatabase backend class found in carbon.database')
@@ -157,8 +183,16 @@ def run(check):
       t = t[1]
     return t[0] == 'meth' and t[1] == 'hexdigest'
 
+  def canon_replace(t):
+    """C.join(<x>.split('.'))  is  <x>.replace('.', C)"""
+    if t[0] == 'meth' and t[1] == 'join' and len(t) == 4 and t[3][0] == 'meth' and t[3][1] == 'split' and len(t[3]) == 4 and \
+       t[3][3] == ('const', '.'):
+      return ('meth', 'replace', t[3][2], ('const', '.'), t[2])
+    return t
+
   def dots_replaced(t):
     """t is <whole metric>.replace('.', C) with no '.' (and no '..') in C"""
+    t = canon_replace(t)
     return t[0] == 'meth' and t[1] == 'replace' and t[2] == ('param', pname) and len(t) >= 5 and t[3] == ('const', '.') and \
       ((t[4][0] == 'const' and isinstance(t[4][1], str) and '.' not in t[4][1]) or t[4] == ('param', 'sep'))
   for name, node, args, kws, loops, f in rets:
@@ -176,7 +210,7 @@ def run(check):
               continue
             if hexonly(ca):
               continue
-            if dots_replaced(ca) and ca[4] != ('param', 'sep'):
+            if dots_replaced(ca) and canon_replace(ca)[4] != ('param', 'sep'):
               continue
             bad.append(ca)
         if first is None or first[0] != 'const' or not first[1] or first[1].startswith(('/', '.')):
@@ -189,7 +223,7 @@ def run(check):
         else:
           r_e.ok('tagged form: "_tagged"/hash/hash/<hash | name with every "." replaced>', enc.loc(node))
       elif alt[0] == 'meth' and alt[1] == 'lstrip' and len(alt) == 4 and alt[3] == ('param', 'sep') and dots_replaced(alt[2]) and \
-          alt[2][4] == ('param', 'sep'):
+          canon_replace(alt[2])[4] == ('param', 'sep'):
         r_e.ok('untagged form: replace(".", sep) then lstrip(sep): relative, no dot left', enc.loc(node))
       else:
         r_e.violate('untagged/other form keeps dots or a leading separator', enc, node, 'encode() can return `%s`: not '
@@ -204,7 +238,7 @@ def run(check):
       bad.append(c)
   glob_reads = [n for n in walk_no_nested(enc.node, include_self=False) if isinstance(n, ast.Name) and isinstance(n.ctx, ast.Load)
                 and n.id not in enc.params and n.id not in ('sha256', 'md5', 'str', 'len', 'metric_hash') and
-                n.id in enc.module.globals]
+                n.id in enc.module.globals and not _is_module_constant(enc.module, n.id)]
   if bad or glob_reads:
     n = (bad or glob_reads)[0]
     r_d.violate('encode not deterministic', enc, n, 'encode() depends on `%s` besides its arguments' % short(n))
